@@ -467,9 +467,17 @@ def gen_c08(rng, n, tier):
                     tags.add("mal:ibtp")
                 else:
                     txs.append(f"ibtp ca1 c1:s1 c2:s1 1 req 0 - ok" if r.random() < 0.5 else f"xfer u0 u1 {r.choice(['1', 'abc', '-1'])}")
+                # header mutation: an IBTP / contract call without a receiver (To == nil) or to the zero address — also for a
+                # well-formed IBTP whose proof is accepted, so that it reaches the VM
+                if r.random() < 0.12 and txs[-1].startswith(("ibtp ", "bvm ")):
+                    kind = r.choice(["noto", "noto", "tozero"])
+                    if r.random() < 0.4:
+                        txs[-1] = "ibtp ca1 c1:s1 c2:s1 1 req 0 - ok"
+                    txs[-1] = f"hdr:{kind} " + txs[-1]
+                    tags.add("mal:hdr-" + kind)
                 # a transaction that is not marked local gets its signature verified: valid, flipped, truncated, empty,
                 # by another key, or without a sender
-                if r.random() < 0.2 and not txs[-1].startswith(("raw", "sig:")):
+                if r.random() < 0.2 and not txs[-1].startswith(("raw", "sig:", "hdr:")):
                     kind = r.choice(["ok", "bad", "short", "empty", "other", "nofrom"])
                     txs[-1] = f"sig:{kind} " + txs[-1]
                     tags.add("mal:sig-" + kind)
